@@ -138,7 +138,7 @@ static ChildOutcome run_in_child(Property *p, const json &plan, bool want_log = 
     j["sim_us"] = r.sim_us;
     j["nontrivial"] = r.nontrivial;
     if (want_log) j["log"] = r.log;
-    std::string s = j.dump();
+    std::string s = j.dump(-1, ' ', false, json::error_handler_t::replace);
     size_t off = 0;
     while (off < s.size()) {
       ssize_t w = write(pfd[1], s.data() + off, s.size() - off);
@@ -196,7 +196,8 @@ static json minimise(Property *p, json plan, const std::string &rule, const std:
     if (used >= budget) return false;
     used++;
     ChildOutcome o = run_in_child(p, cand);
-    return has_rule(o.res, rule, crash ? &sig : nullptr);
+    (void)crash;
+    return has_rule(o.res, rule, &sig);     // the same violation class = same rule AND same signature (a known finding of the same rule must not take over)
   };
   for (const std::string &key : p->shrink_keys()) {
     if (!plan.contains(key) || !plan[key].is_array()) continue;
@@ -305,7 +306,7 @@ static void worker_main(Property *p, const WorkerCfg &c, int out_fd, uint64_t st
             (unsigned long long)r.events, (unsigned long long)r.sim_us, r.violations.size(), mismatch ? 1 : 0);
     for (auto &v : r.violations) {
       json j = v;
-      fprintf(o, "V %llu %s\n", (unsigned long long)idx, j.dump().c_str());
+      fprintf(o, "V %llu %s\n", (unsigned long long)idx, j.dump(-1, ' ', false, json::error_handler_t::replace).c_str());
     }
     done++;
     if (real_s() - last_flush > 1.0) {
@@ -347,7 +348,8 @@ static int do_replay(Property *p, const std::string &path, bool verbose) {
   if (plan.contains("expect")) {
     auto &e = plan["expect"];
     std::string rule = e.value("rule", "");
-    bool reproduced = has_rule(r, rule);
+    std::string esig = e.value("sig", "");
+    bool reproduced = rule == "M-mem.crash" || esig.empty() ? has_rule(r, rule) : has_rule(r, rule, &esig);
     if (e.contains("trace_hash") && rule != "M-mem.crash") {
       uint64_t h = strtoull(e["trace_hash"].get<std::string>().c_str(), nullptr, 16);
       if (h != r.trace_hash)
@@ -518,7 +520,7 @@ static int run_batch(Property *p, bool thorough, uint64_t seed, int jobs, double
       if (!k->hit) { k->hit = true; printf("KNOWN-FINDING: property=%s %s [rule=%s first_index=%llu]\n", p->id.c_str(), k->what.c_str(), f.v.rule.c_str(), (unsigned long long)f.index); }
       continue;
     }
-    std::string key = f.v.rule + (f.v.rule == "M-mem.crash" ? "|" + f.v.sig : "");
+    std::string key = f.v.rule + "|" + f.v.sig;
     auto it = firsts.find(key);
     if (it == firsts.end() || f.index < it->second.index) firsts[key] = f;
   }
@@ -541,7 +543,7 @@ static int run_batch(Property *p, bool thorough, uint64_t seed, int jobs, double
     // confirm in a child first (determinism gate part 1)
     ChildOutcome c1 = run_in_child(p, plan);
     bool crash = f.v.rule == "M-mem.crash";
-    if (!has_rule(c1.res, f.v.rule, crash ? &f.v.sig : nullptr)) {
+    if (!has_rule(c1.res, f.v.rule, &f.v.sig)) {
       // crash signatures may differ slightly between worker and child (different history in process); accept any crash
       if (!(crash && c1.crashed)) {
         printf("MACHINERY-FAULT: property=%s index=%llu rule=%s did not reproduce in a fresh child\n", p->id.c_str(), (unsigned long long)f.index, f.v.rule.c_str());
@@ -553,13 +555,13 @@ static int run_batch(Property *p, bool thorough, uint64_t seed, int jobs, double
     int reruns = 0;
     json minp = minimise(p, plan, f.v.rule, sig, 250, &reruns);
     ChildOutcome a = run_in_child(p, minp), b = run_in_child(p, minp);
-    if (!has_rule(a.res, f.v.rule) || !has_rule(b.res, f.v.rule) || (!crash && a.res.trace_hash != b.res.trace_hash)) {
+    if (!has_rule(a.res, f.v.rule, &sig) || !has_rule(b.res, f.v.rule, &sig) || (!crash && a.res.trace_hash != b.res.trace_hash)) {
       printf("MACHINERY-FAULT: property=%s index=%llu rule=%s minimised plan is not deterministic\n", p->id.c_str(), (unsigned long long)f.index, f.v.rule.c_str());
       rc = std::max(rc, 2);
       continue;
     }
     Violation mv;
-    for (auto &v : a.res.violations) if (v.rule == f.v.rule) { mv = v; break; }
+    for (auto &v : a.res.violations) if (v.rule == f.v.rule && v.sig == sig) { mv = v; break; }
     // does the minimised form match a known finding? (sig may only be decidable on the minimised history)
     Known *k = match_known(known, mv);
     if (k) {
@@ -574,7 +576,7 @@ static int run_batch(Property *p, bool thorough, uint64_t seed, int jobs, double
     mkdir(dir.c_str(), 0755);
     std::string path = strfmt("%s/%s-%016llx.json", dir.c_str(), std::regex_replace(mv.rule, std::regex("[^A-Za-z0-9_.-]"), "_").c_str(),
                               (unsigned long long)mix64(a.res.trace_hash ^ std::hash<std::string>()(minp.dump())));
-    { std::ofstream o(path); o << minp.dump(1) << "\n"; }
+    { std::ofstream o(path); o << minp.dump(1, ' ', false, json::error_handler_t::replace) << "\n"; }
     // fresh-process gate
     std::string cmd = strfmt("%s/build/simcheck %s --replay %s >/dev/null 2>&1", VERIF_DIR, p->id.c_str(), path.c_str());
     int sc = system(cmd.c_str());
